@@ -3,7 +3,8 @@
    S_* : the specification, layout-free, cell by cell / label by label.
    M_* : the implementation model, the algorithm the code runs:
            TypeBlocks.equals        static_frame/core/type_blocks.py:3096-3152
-             (three operand paths of TypeBlocks._ufunc_binary_operator :2302-2372,
+             (three operand paths of TypeBlocks._ufunc_binary_operator :2325-2395: block-compatible, reblocked,
+              column by column through axis_values(0);
               _reblock_signature :542-566, consolidate_blocks :621-657, the both-missing
               mask and the block walk with start/end offsets :3133-3151)
            Frame.equals             frame.py:6212-6266
@@ -351,39 +352,26 @@ Fixpoint consol_go (g : option block) (bs : list block) : list block :=
   end.
 Definition reblock (bs : list block) : list block := consol_go None bs.
 
-(* resolve_dtype_iter over the blocks, as far as the comparison can see it: the row dtype is
-   object unless every block has the same family of dtype (util.resolve_dtype :409-458) *)
-Definition dclass (d : dtype) : Z :=
-  match d with
-  | DBool => 0 | DInt _ _ | DFlt _ | DCplx _ => 1 | DStr _ | DBytes _ => 2
-  | DDt _ => 3 | DTd _ => 4 | DObj => 5
-  end.
-Definition row_kind (bs : list block) : okind :=
-  match bs with
-  | [] => KOther
-  | b :: r => if forallb (fun x => dclass (fst x) =? dclass (fst b)) r then okind_of (fst b) else KObj
-  end.
-
-(* .values: one 2-D array of the row dtype; its kind is kept in place of a dtype *)
-Definition oblock := (okind * list (list val))%type.
+Definition oblock := (okind * list (list val))%type.   (* an operand array: its kind in place of a dtype *)
 Definition as_oblock (b : block) : oblock := (okind_of (fst b), snd b).
-Definition values_block (bs : list block) : oblock :=
-  let rk := row_kind bs in
-  (rk, flat_map (fun b => map (map (co (okind_of (fst b)) rk)) (snd b)) bs).
+
+(* axis_values(0): column by column, every column a 1-D array of its own dtype *)
+Definition split_cols (bs : list block) : list block :=
+  flat_map (fun b => map (fun col => (fst b, [col])) (snd b)) bs.
 
 Definition list_Z_eqb := list_eqb Z.eqb.
 
-Inductive tpath := PBlocks | PReblock | PValues.
+Inductive tpath := PBlocks | PReblock | PColumns.
 Definition tb_path (a b : list block) : tpath :=
   if list_Z_eqb (map blk_width a) (map blk_width b) then PBlocks
   else if list_Z_eqb (map snd (reblock_sig a)) (map snd (reblock_sig b)) then PReblock
-  else PValues.
+  else PColumns.
 
 Definition operands (a b : list block) : list oblock * list oblock :=
   match tb_path a b with
   | PBlocks => (map as_oblock a, map as_oblock b)
   | PReblock => (map as_oblock (reblock a), map as_oblock (reblock b))
-  | PValues => ([values_block a], [values_block b])
+  | PColumns => (map as_oblock (split_cols a), map as_oblock (split_cols b))
   end.
 
 Definition eq_block (x y : oblock) : list (list bool) :=
@@ -542,15 +530,11 @@ Definition tb_wf (t : etb) : bool :=
   forallb (fun b => 0 <? blk_width b) (tb_blocks t) &&
   forallb (fun col => Z.of_nat (length col) =? tb_rows t) (tb_vals t).
 
-Definition no_nat (t : etb) : bool := negb (existsb has_nat (tb_vals t)).
-
-(* NaT is never rewritten to None on the way to the comparison *)
+(* NaT is never rewritten to None on the way to the comparison: no datetime64 column holding NaT faces an
+   object column (every operand path compares a column with the column at the same position, each with its own
+   dtype, so this does not depend on the layouts) *)
 Definition nat_dom (a b : etb) : bool :=
-  match tb_path (tb_blocks a) (tb_blocks b) with
-  | PValues => if is_kobj (row_kind (tb_blocks a)) || is_kobj (row_kind (tb_blocks b))
-               then no_nat a && no_nat b else true
-  | _ => all_true (map2 col_inert (map kcol (tb_cols a)) (map kcol (tb_cols b)))
-  end.
+  all_true (map2 col_inert (map kcol (tb_cols a)) (map kcol (tb_cols b))).
 
 Definition tb_dom (c : mcfg) (o : eopts) (a b : etb) : bool :=
   tb_wf a && tb_wf b && (m_zero_ok c || (0 <? tb_ncols a)) &&
